@@ -46,6 +46,38 @@ def main():
             res["import_exc"] = repr(e)[:300]
             os.write(out_fd, (json.dumps(res) + "\n").encode())
             return 0
+        if job.get("cli_dir"):
+            # directory mode: every item becomes a file of one directory, one invocation of main() for all of them
+            d = os.path.join(os.getcwd(), "cli_dir_items")
+            import shutil
+            shutil.rmtree(d, ignore_errors=True)
+            os.makedirs(d)
+            for n, it in enumerate(job["items"]):
+                try:
+                    with open(os.path.join(d, "item%03d.sql" % n), "w", encoding="utf-8") as f:
+                        f.write(it["ddl"])
+                except (UnicodeError, OSError):
+                    pass
+            old_argv, old_out = sys.argv, sys.stdout
+            buf = io.StringIO()
+            sys.argv, sys.stdout = ["sdp", d, "--no-dump"], buf
+            try:
+                cli_main()
+                o = ["ok", sorted(buf.getvalue().split("\n"))]        # the order in which files are listed is not specified
+            except SystemExit as e:
+                o = ["exit", repr(e.code), sorted(buf.getvalue().split("\n"))]
+            except BaseException as e:  # noqa
+                o = core.outcome_of_exception(e)
+                res["ctor_exc"] = ["cli-exc", type(e).__name__, str(e)[:200]] if type(e).__name__ in ("ImportError", "ModuleNotFoundError", "YaccError", "VersionError", "SyntaxError", "AttributeError", "BrokenProcessPool") else res["ctor_exc"]
+            finally:
+                sys.argv, sys.stdout = old_argv, old_out
+                shutil.rmtree(d, ignore_errors=True)
+            res["digests"] = [core.digest_of(o)[:20]] * len(job["items"])
+            after = _sha(pt)
+            res["rewritten"] = before != after
+            res["cache_present_after"] = after is not None
+            os.write(out_fd, (json.dumps(res) + "\n").encode())
+            return 0
         for n, it in enumerate(job["items"]):
             path = os.path.join(os.getcwd(), "cli_item_%d.sql" % n)
             try:
